@@ -279,28 +279,30 @@ def explicitArgs (g : GraphVal) (st : EncSt) : List (EdgeW × Nat) → Res (List
           | .panic s => .panic s
         | _ => .panic "unexpected edge for an instantiation"
 
+/-- the component index of a package: cached per package (`state.packages`), else the
+    embedded component or the `unlocked-dep` component import -/
+def pkgComponent (o : Opts) (st : EncSt) (slot : Nat) (p : PkgVal) : EncSt × Nat :=
+  match natGet st.pkgs slot with
+  | some c => (st, c)
+  | none =>
+    let r :=
+      if o.define then st.emit (.component p.bytesId)
+      else (st.emit .typeDef).1.emit (.import (pkgImportName p) .component)
+    ({ r.1 with pkgs := r.1.pkgs ++ [(slot, r.2)] }, r.2)
+
 /-- `instantiation` -/
 def encInstantiation (g : GraphVal) (o : Opts) (st : EncSt) (n : Node) (slot : Nat) : Res (EncSt × Nat) :=
   match g.pkg? slot with
   | none => .panic "invalid package id"
   | some p =>
-    let (st1, comp) : EncSt × Nat :=
-      match natGet st.pkgs slot with
-      | some c => (st, c)
-      | none =>
-        let (sta, c) :=
-          if o.define then st.emit (.component p.bytesId)
-          else
-            let (s1, _) := st.emit .typeDef
-            s1.emit (.import (pkgImportName p) .component)
-        ({ sta with pkgs := sta.pkgs ++ [(slot, c)] }, c)
-    match explicitArgs g st1 n.inc with
+    let r := pkgComponent o st slot p
+    match explicitArgs g r.1 n.inc with
     | .error e => .error e
     | .panic s => .panic s
     | .ok args =>
-      let implicit := (natGet st1.implicit n.id).getD []
-      let st2 := { st1 with implicit := st1.implicit.filter fun e => e.1 != n.id }
-      .ok (st2.emit (.instantiate comp (args ++ implicit)))
+      let implicit := (natGet r.1.implicit n.id).getD []
+      let st2 := { r.1 with implicit := r.1.implicit.filter fun e => e.1 != n.id }
+      .ok (st2.emit (.instantiate r.2 (args ++ implicit)))
 
 /-- `alias` -/
 def encAlias (g : GraphVal) (st : EncSt) (n : Node) : Res (EncSt × Nat) :=
@@ -316,16 +318,20 @@ def encAlias (g : GraphVal) (st : EncSt) (n : Node) : Res (EncSt × Nat) :=
         | none => .panic "node_indexes[source]"
         | some inst => .ok (st.emit (.aliasExport inst n.ty.kind exportName))
 
+/-- the type index `definition` exports: the index of an already exported aliased definition,
+    else a freshly encoded type -/
+def defTypeIndex (st : EncSt) (n : Node) : EncSt × Nat :=
+  match n.defAlias.bind (natGet st.nodeIdx) with
+  | some idx => (st, idx)
+  | none => st.emit .typeDef
+
 /-- `definition` -/
 def encDefinition (st : EncSt) (n : Node) : Res (EncSt × Nat) :=
   match n.exportName with
   | none => .panic "definition without a name"
   | some name =>
-    let (st1, ty) : EncSt × Nat :=
-      match n.defAlias.bind (natGet st.nodeIdx) with
-      | some idx => (st, idx)
-      | none => st.emit .typeDef
-    .ok (st1.emit (.export name .type ty))
+    let r := defTypeIndex st n
+    .ok (r.1.emit (.export name .type r.2))
 
 /-- the body of the loop over the non-import nodes -/
 def encNode (g : GraphVal) (o : Opts) (st : EncSt) (id : Nat) : Res EncSt :=
